@@ -7,6 +7,31 @@
   referenceable.py LocalReferenceable.callRemote    -> local call goes through fireEventually (checked)
 
 Every queue attribute may only be touched where the model says it is (a frame check over all non-test modules).
+
+Forms accepted in Broker.doNextCall besides the reference text, each equivalent to it for all values:
+
+ 1. `if A or B or C: return`  for  `if A: return` `if B: return` `if C: return`.
+    `or` evaluates its operands left to right, takes the truth value of each at most once and stops at the first
+    true one; the `if` then returns.  The chain of ifs does exactly the same evaluations in the same order and returns
+    in exactly the same cases; nothing else happens in either form.  (The tests themselves must still be among
+    self.disconnected / self._waiting_for_call_to_be_ready / not self.inboundDeliveryQueue.)
+ 2. `d = ready_deferred or defer.succeed(None)`  for  `if not ready_deferred: ready_deferred = defer.succeed(None)`
+    `d = ready_deferred`.  Both take the truth value of ready_deferred once, evaluate defer.succeed(None) only when it
+    is false, and bind d to ready_deferred itself otherwise.  The only difference is that the old form also rebinds
+    the local ready_deferred; the translator checks that this local is not read again afterwards (in either form).
+ 3. the first link of the callback chain, `d.addBoth(X)`, may be a one-argument closure defined in doNextCall just
+    before (any name; a local referenced once) or `self.M` where M is a (self, result) method of Broker.  The body
+    required is the same (clear the flag, eventually(self.doNextCall), return the argument); the closure uses nothing
+    of its environment but self, and a bound method called with one argument runs the same body with the same self.
+    So that the attribute lookup self.M at addBoth time yields that function, M must be defined once, not decorated,
+    and mentioned nowhere else in the package (frame check: no other caller, no instance attribute of that name).
+
+One further place may touch the inbound queue, Broker.finish (connection teardown), under these conditions:
+ 4. after `self.disconnected = True` (never stored again in finish) it may iterate over the queue (loop body not touching
+    the queue, the flag, doNextCall/scheduleCall/_doCall) and assign `self.inboundDeliveryQueue = []`; doNextCall must
+    test self.disconnected among its return guards.  From that assignment on doNextCall returns before looking at the
+    queue, so no delivery is dequeued or entered any more whether the list is emptied or not: the set and order of
+    calls entered is the same for all inputs.  (Connection loss itself stays outside the model.)
 """
 import ast, os
 from translate import pylite as P
@@ -230,45 +255,118 @@ def generate():
         raise P.Untranslatable("Broker.doNextCall: dequeue target changed")
     out.append("Definition inq_pop : pop_end := %s.   (* Broker.doNextCall: %s *)" % (inq_pop, U(dbody[i_pop])))
 
-    def is_return_if(s, test):
-        return (isinstance(s, ast.If) and U(s.test) == test and len(s.body) == 1 and isinstance(s.body[0], ast.Return)
-                and s.body[0].value is None and not s.orelse)
+    def guard_tests(st):
+        """`if T: return` -> [T];  `if A or B or C: return` -> [A, B, C]  (accepted form 1, see the docstring)"""
+        if not (isinstance(st, ast.If) and len(st.body) == 1 and isinstance(st.body[0], ast.Return)
+                and st.body[0].value is None and not st.orelse):
+            return None
+
+        def flat(t):
+            if isinstance(t, ast.BoolOp) and isinstance(t.op, ast.Or):
+                return [x for v in t.values for x in flat(v)]
+            return [U(t)]
+        return flat(st.test)
     pre = dbody[:i_pop]
-    hol_guard = [s for s in pre if is_return_if(s, "self._waiting_for_call_to_be_ready")]
-    empty_guard = [s for s in pre if is_return_if(s, "not self.inboundDeliveryQueue")]
-    others = [s for s in pre if s not in hol_guard and s not in empty_guard and not is_return_if(s, "self.disconnected")]
+    tests = []
+    for st in pre:
+        g = guard_tests(st)
+        if g is None:
+            raise P.Untranslatable("Broker.doNextCall: statements before the dequeue changed: %s" % [U(x) for x in pre])
+        tests += g
+    hol_guard = [t for t in tests if t == "self._waiting_for_call_to_be_ready"]
+    empty_guard = [t for t in tests if t == "not self.inboundDeliveryQueue"]
+    others = [t for t in tests if t not in ("self._waiting_for_call_to_be_ready", "not self.inboundDeliveryQueue", "self.disconnected")]
     if others or len(empty_guard) != 1 or len(hol_guard) > 1:
-        raise P.Untranslatable("Broker.doNextCall: statements before the dequeue changed: %s" % [U(s) for s in pre])
+        raise P.Untranslatable("Broker.doNextCall: statements before the dequeue changed: %s" % [U(x) for x in pre])
     post = dbody[i_pop + 1:]
-    post_src = [U(s) for s in post]
+    post_src = [U(x) for x in post]
     sets_waiting = bool(post_src) and post_src[0] == "self._waiting_for_call_to_be_ready = True"
     if hol_guard and not sets_waiting:
         raise P.Untranslatable("Broker.doNextCall: the waiting flag is tested but not set right after the dequeue")
     head_of_line = "HolBlocking" if (hol_guard and sets_waiting) else "HolNone"
     out.append("Definition head_of_line : hol := %s.   (* `if self._waiting_for_call_to_be_ready: return` before the dequeue, flag set after it *)"
                % head_of_line)
-    # _ready: clears the flag, re-arms doNextCall, passes the result on; chain: addBoth(_ready) then _doCall
-    rdy = [s for s in post if isinstance(s, ast.FunctionDef) and s.name == "_ready"]
-    if len(rdy) != 1:
-        raise P.Untranslatable("Broker.doNextCall: inner _ready missing")
-    rsrc = [U(s) for s in rdy[0].body]
-    want = ["self._waiting_for_call_to_be_ready = False", "eventually(self.doNextCall)", "return res"]
+    # the callback chain of the dequeued delivery; its first link clears the flag and re-arms doNextCall
+    chain = [x for x in post if isinstance(x, ast.Expr) and isinstance(x.value, ast.Call) and U(x.value.func).startswith("d.add")]
+    chain_src = [U(x) for x in chain]
+    if len(chain) != 5 or not chain_src[0].startswith("d.addBoth(") or chain_src[1:] != [
+            "d.addCallback(lambda res: self._doCall(delivery))", "d.addCallback(self._callFinished, delivery)",
+            "d.addErrback(self.callFailed, delivery.reqID, delivery)", "d.addErrback(log.err)"]:
+        raise P.Untranslatable("Broker.doNextCall: callback chain changed: %s" % chain_src)
+    first = chain[0].value
+    if len(first.args) != 1 or first.keywords:
+        raise P.Untranslatable("Broker.doNextCall: first link of the chain changed: %s" % chain_src[0])
+    cb = first.args[0]
+    ready_place = None
+    if isinstance(cb, ast.Name):
+        # a closure defined in doNextCall before it is registered (any name)
+        defs = [x for x in post[:post.index(chain[0])] if isinstance(x, ast.FunctionDef) and x.name == cb.id]
+        if len(defs) != 1 or defs[0].decorator_list or [a.arg for a in defs[0].args.args] == [] or len(defs[0].args.args) != 1 \
+                or defs[0].args.vararg or defs[0].args.kwarg or defs[0].args.defaults or defs[0].args.kwonlyargs:
+            raise P.Untranslatable("Broker.doNextCall: the ready callback %s is not a one-argument closure defined just before" % cb.id)
+        rfn, rparam = defs[0], defs[0].args.args[0].arg
+        ready_place = ("broker.py", "Broker.doNextCall." + cb.id)
+    elif isinstance(cb, ast.Attribute) and U(cb.value) == "self":
+        # a bound method of the same Broker (accepted form 3, see the docstring)
+        rfn = P.find_def(bro, "Broker." + cb.attr)
+        a = rfn.args
+        if rfn.decorator_list or [x.arg for x in a.args] != ["self", a.args[-1].arg] or len(a.args) != 2 or a.vararg or a.kwarg \
+                or a.defaults or a.kwonlyargs:
+            raise P.Untranslatable("Broker.%s is not a plain (self, result) method" % cb.attr)
+        rparam = a.args[1].arg
+        ready_place = ("broker.py", "Broker." + cb.attr)
+        # nobody else may call it, override it on the instance, or take it from another class
+        frame(cb.attr, {("broker.py", "Broker.doNextCall")})
+        for m2 in ("broker.py", "pb.py", "referenceable.py", "banana.py"):
+            for n2 in ast.walk(P.load(m2)):
+                if isinstance(n2, (ast.FunctionDef, ast.ClassDef)) and n2.name == cb.attr and n2 is not rfn:
+                    raise P.Untranslatable("%s is defined more than once" % cb.attr)
+    else:
+        raise P.Untranslatable("Broker.doNextCall: first link of the chain changed: %s" % chain_src[0])
+    rsrc = [U(x) for x in strip_doc(rfn.body)]
+    want = ["self._waiting_for_call_to_be_ready = False", "eventually(self.doNextCall)", "return %s" % rparam]
     if hol_guard:
         if rsrc != want:
-            raise P.Untranslatable("Broker.doNextCall._ready changed: %s" % rsrc)
+            raise P.Untranslatable("Broker.doNextCall: ready callback changed: %s" % rsrc)
     else:
         if rsrc[-2:] != want[-2:]:
-            raise P.Untranslatable("Broker.doNextCall._ready changed: %s" % rsrc)
-    chain = [s for s in post_src if s.startswith("d.add")]
-    if chain != ["d.addBoth(_ready)", "d.addCallback(lambda res: self._doCall(delivery))", "d.addCallback(self._callFinished, delivery)",
-                 "d.addErrback(self.callFailed, delivery.reqID, delivery)", "d.addErrback(log.err)"]:
-        raise P.Untranslatable("Broker.doNextCall: callback chain changed: %s" % chain)
-    if "if not ready_deferred:\n    ready_deferred = defer.succeed(None)" not in post_src or "d = ready_deferred" not in post_src:
-        raise P.Untranslatable("Broker.doNextCall: ready_deferred defaulting changed")
-    frame("inboundDeliveryQueue", {("broker.py", "Broker.initBroker"), ("broker.py", "Broker.scheduleCall"),
-                                   ("broker.py", "Broker.doNextCall"), ("pb.py", "Tub.debug_listBrokers")})
-    frame("_waiting_for_call_to_be_ready", {("broker.py", "Broker.initBroker"), ("broker.py", "Broker.doNextCall"),
-                                            ("broker.py", "Broker.doNextCall._ready")})
+            raise P.Untranslatable("Broker.doNextCall: ready callback changed: %s" % rsrc)
+    # d = the delivery's ready_deferred, or an already fired Deferred when there is none (accepted form 2)
+    between = [x for x in post[1:post.index(chain[0])] if not isinstance(x, ast.FunctionDef)]
+    bsrc = [U(x) for x in between]
+    if bsrc not in (["if not ready_deferred:\n    ready_deferred = defer.succeed(None)", "d = ready_deferred"],
+                    ["d = ready_deferred or defer.succeed(None)"]):
+        raise P.Untranslatable("Broker.doNextCall: ready_deferred defaulting changed: %s" % bsrc)
+    later_reads = [n2 for x in post[post.index(chain[0]):] for n2 in ast.walk(x) if isinstance(n2, ast.Name) and n2.id == "ready_deferred"]
+    later_reads += [n2 for x in post if isinstance(x, ast.FunctionDef) for n2 in ast.walk(x) if isinstance(n2, ast.Name) and n2.id == "ready_deferred"]
+    if later_reads:
+        raise P.Untranslatable("Broker.doNextCall: ready_deferred is used again after d was chosen")
+    inq_places = {("broker.py", "Broker.initBroker"), ("broker.py", "Broker.scheduleCall"),
+                  ("broker.py", "Broker.doNextCall"), ("pb.py", "Tub.debug_listBrokers")}
+    # Broker.finish may drop the queued deliveries of a connection that is gone (accepted form 4, see the docstring)
+    fin = P.find_def(bro, "Broker.finish")
+    fbody = strip_doc(fin.body)
+    fuses = [k for k, st in enumerate(fbody) if any(isinstance(n, ast.Attribute) and n.attr == "inboundDeliveryQueue" for n in ast.walk(st))]
+    if fuses:
+        i_disc = index_of(fbody, lambda st: U(st) == "self.disconnected = True", "self.disconnected = True")
+        if "self.disconnected" not in tests:
+            raise P.Untranslatable("Broker.finish empties the inbound queue but doNextCall does not test self.disconnected")
+        for k in fuses:
+            st = fbody[k]
+            ok = k > i_disc and (
+                U(st) == "self.inboundDeliveryQueue = []" or
+                (isinstance(st, ast.For) and U(st.iter) == "self.inboundDeliveryQueue" and not st.orelse and
+                 not any(isinstance(n, ast.Attribute) and n.attr in ("inboundDeliveryQueue", "doNextCall", "scheduleCall", "_doCall",
+                                                                      "_waiting_for_call_to_be_ready", "disconnected")
+                         for b in st.body for n in ast.walk(b))))
+            if not ok:
+                raise P.Untranslatable("Broker.finish uses the inbound queue in an unexpected way: " + U(st))
+        if any(isinstance(n, ast.Attribute) and n.attr == "disconnected" and isinstance(n.ctx, ast.Store)
+               for st in fbody[i_disc + 1:] for n in ast.walk(st)):
+            raise P.Untranslatable("Broker.finish changes self.disconnected again")
+        inq_places.add(("broker.py", "Broker.finish"))
+    frame("inboundDeliveryQueue", inq_places)
+    frame("_waiting_for_call_to_be_ready", {("broker.py", "Broker.initBroker"), ("broker.py", "Broker.doNextCall"), ready_place})
     # the call is scheduled by the root unslicer as soon as the CallUnslicer closes
     bru = P.find_def(bro, "PBRootUnslicer.receiveChild")
     if "self.broker.scheduleCall(token, ready_deferred)" not in U(bru):
